@@ -342,3 +342,118 @@ theorem C07_relations_exact_counterexample :
     (match buildState Examples.inputQueryDoc with | .ok st => st | .error _ => default) noRoots [], rfl, ?_, ?_⟩
   · unfold InputObjectsPlain; decide
   · intro h; exact absurd h.possibleNoOtherKeys (by decide)
+
+/- ------------------------------------------------------------------ introspection fields, built-ins -/
+
+theorem filter_dunder_nil {fs : List FieldDef} (h : ∀ f ∈ fs, hasDunder f.name = false) {n : Name}
+    (hn : hasDunder n = true) : fs.filter (·.name == n) = [] := by
+  rw [List.filter_eq_nil_iff]
+  intro f hf he
+  have : f.name = n := by simpa using he
+  have h' := h f hf
+  rw [this, hn] at h'
+  exact absurd h' (by simp)
+
+/-- **C07_introspection_fields**: the query root of every loaded schema has exactly one field
+    `__schema: __Schema!` (no arguments) and exactly one field `__type(name: String!): __Type` -/
+theorem C07_introspection_fields {sd : SchemaDoc} {s : Schema} (h : load sd = .ok s) : Spec.IntrospectionFields s := by
+  obtain ⟨st, r1, d1, F⟩ := loaded_facts h
+  rw [F.eq]
+  unfold Spec.IntrospectionFields Spec.introspectionFieldsB
+  rw [mkSchema_query]
+  cases hq : (finalRoots sd st r1).query with
+  | none => rfl
+  | some q =>
+    have hsome := F.roots.1 q hq
+    cases hl : st.types.lookup q with
+    | none => rw [hl] at hsome; simp at hsome
+    | some d =>
+      have hfin := lookup_final (sd := sd) (r1 := r1) (d1 := d1) hl
+      rw [hq] at hfin
+      have hfd : (finalDef (some q) (q, d)).2 = addIntrospection d := by simp [finalDef]
+      rw [hfd] at hfin
+      simp only [hfin]
+      have hnames := (F.defOK (q, d) (mem_of_lookup hl)).fieldNames
+      have h1 : (addIntrospection d).fields.filter (·.name == str "__schema") = [introspectionFields[0]] := by
+        simp only [addIntrospection, List.filter_append, filter_dunder_nil hnames (n := str "__schema") (by decide)]
+        rfl
+      have h2 : (addIntrospection d).fields.filter (·.name == str "__type") = [introspectionFields[1]] := by
+        simp only [addIntrospection, List.filter_append, filter_dunder_nil hnames (n := str "__type") (by decide)]
+        rfl
+      rw [h1, h2]
+      rfl
+
+/-- the document contains the built-in scalars, directives and introspection types (the prelude) -/
+structure PreludeDeclared (sd : SchemaDoc) : Prop where
+  scalars : ∀ n ∈ Spec.builtinScalars, DeclaresKind sd n .scalar
+  types : ∀ p ∈ Spec.introspectionTypes, DeclaresKind sd p.1 p.2
+  directives : ∀ n ∈ Spec.builtinDirectives, ∃ dd ∈ sd.directives, dd.name = n
+
+theorem keys_insertKV_mono {α} {k n : Name} {v : α} {l : List (Name × α)} (hn : n ∈ l.map Prod.fst) :
+    n ∈ (insertKV k v l).map Prod.fst := by
+  induction l with
+  | nil => simp at hn
+  | cons p rest ih =>
+    obtain ⟨k', v'⟩ := p
+    simp only [insertKV]
+    split
+    · simpa using hn
+    · simp only [List.map_cons, List.mem_cons] at hn ⊢
+      rcases hn with hn | hn
+      · exact Or.inl hn
+      · exact Or.inr (ih hn)
+
+theorem declareDirectives_keys {l : List DirectiveDef} {acc r : List (Name × DirectiveDef)}
+    (h : declareDirectives l acc = .ok r) :
+    (∀ n, (acc.lookup n).isSome → (r.lookup n).isSome) ∧ ∀ dd ∈ l, (r.lookup dd.name).isSome := by
+  induction l generalizing acc with
+  | nil => simp [declareDirectives] at h; subst h; simp
+  | cons dd rest ih =>
+    simp only [declareDirectives] at h
+    split at h
+    · simp at h
+    · obtain ⟨ih1, ih2⟩ := ih h
+      have hmono : ∀ n, (acc.lookup n).isSome → ((insertKV dd.name dd acc).lookup n).isSome := by
+        intro n hn
+        rw [lookup_isSome_iff_mem_keys] at hn ⊢
+        exact keys_insertKV_mono hn
+      refine ⟨fun n hn => ih1 n (hmono n hn), ?_⟩
+      intro d' hd'
+      simp only [List.mem_cons] at hd'
+      rcases hd' with hd' | hd'
+      · subst hd'
+        exact ih1 _ (by rw [lookup_insertKV_self]; rfl)
+      · exact ih2 d' hd'
+
+/-- **C07_prelude_present**: a schema loaded from a document that contains the prelude has the
+    built-in scalars, the built-in directives and the introspection types -/
+theorem C07_prelude_present {sd : SchemaDoc} {s : Schema} (h : load sd = .ok s) (hp : PreludeDeclared sd) :
+    Spec.HasBuiltins s := by
+  obtain ⟨st, r1, d1, F⟩ := loaded_facts h
+  rw [F.eq]
+  unfold Spec.HasBuiltins Spec.hasBuiltinsB
+  simp only [Bool.and_eq_true, List.all_eq_true]
+  refine ⟨⟨?_, ?_⟩, ?_⟩
+  · intro n hn
+    obtain ⟨d, hd, hk⟩ := buildState_declares F.built (hp.scalars n hn)
+    exact typeIs_mkSchema hd (by simp [hk])
+  · intro n hn
+    obtain ⟨dd, hdd, hname⟩ := hp.directives n hn
+    have hb := F.built
+    unfold buildState at hb
+    split at hb
+    · simp at hb
+    · split at hb
+      · simp at hb
+      · split at hb
+        split at hb
+        · simp at hb
+        · rename_i dirs hdirs
+          simp only [Except.ok.injEq] at hb
+          subst hb
+          have := (declareDirectives_keys hdirs).2 dd hdd
+          rw [hname] at this
+          exact this
+  · intro p hp'
+    obtain ⟨d, hd, hk⟩ := buildState_declares F.built (hp.types p hp')
+    exact typeIs_mkSchema hd (by simp [hk])
